@@ -14,6 +14,7 @@ func init() {
 	register(&Prop{ID: "C16", Run: runC16,
 		Technique: "static analysis: dominance of the already-running probe over every effect of Agent.Run, decision table of the probe and of the status getter (error value-flow), ordering of unlink and bind in the socket server (go/ssa)",
 		Decided: []string{
+			"every non-nil error of the socket client's request wraps a library call's error or is the timeout sentinel under a Timeout() test (C16.client-errors-are-transport)",
 			"every address handed to the socket constructors is the result of one repository function that reads nothing but the DAG: no environment, pid, host, clock, random or reassigned package variable (C16.address-function)",
 			"DAG.Location (from which the socket address, the only lock, is derived) is on every way the result of filepath.Abs/Clean/EvalSymlinks/Join (C16.canonical-location); the accept loop of the run's socket is left only under the server's shutdown flag (C16.serve-until-shutdown)",
 			"Agent.Run reaches history open/write, socket creation and Schedule only on the success edge of the already-running probe (C16.probe-first)",
@@ -32,6 +33,7 @@ func runC16(e *Env) {
 	c08ServeUntilShutdown(e, "C16.serve-until-shutdown")
 	c16CanonicalLocation(e)
 	c16AddressFunction(e)
+	c16ClientErrors(e, "C16.client-errors-are-transport")
 	c16AtomicClaim(e)
 }
 
